@@ -123,6 +123,21 @@ void harness(void)
         ASSERT(n_track[KINDSEL] == 1 && n_track[1 - KINDSEL] == 0, "C09: tracker sees the successful allocation exactly once, with the right kind");
         ASSERT(tr_ptr[KINDSEL] == p && tr_size[KINDSEL] == size, "C09: tracker is told the pointer and size");
 #endif
+#if API == 1
+        /* C08: a pointer no leaf recognises is refused, nothing is released, the tracker hears nothing */
+        { uint64_t keep_owner = owner_of_ptr; int lb = nlog; owner_of_ptr = 99;
+          uint64_t foreign = HEAP_BASE + 0x40;
+#if KINDSEL == 0
+          uint64_t r0 = WF(try_deallocate_node)(O, foreign, size, al);
+#else
+          uint64_t r0 = WF(try_deallocate_array)(O, foreign, count, size, al);
+#endif
+          ASSERT(r0 == 0, "C08: try_deallocate of memory no sub-allocator owns returns false");
+          for (int i = 0; i < LOGN; ++i) if (i >= lb && i < nlog) ASSERT(!lg[i].dealloc, "C08: a refused release releases nothing");
+          ASSERT(n_track[2] + n_track[3] == 0, "C09: the tracker is not told about a release that did not happen");
+          ASSERT(mutex_held == 0 && n_lock == n_unlock, "C13: mutex released after a refused release");
+          owner_of_ptr = keep_owner; }
+#endif
         /* matching release through the same interface */
         int before = nlog;
 #if API == 0 && KINDSEL == 0
